@@ -31,6 +31,7 @@ CONSTANTS
  Aead = TRUE
  CheckIdent = TRUE
  RelayOnce = TRUE
+ CandsGuard = TRUE
  SuspendJoin = TRUE
  JoinCacheFirst = FALSE
  AutoTimers = TRUE
